@@ -106,3 +106,74 @@ def quiet():
     """BioAgent / Membrane / Mitochondria print unconditionally."""
     with contextlib.redirect_stdout(io.StringIO()):
         yield
+
+
+def canon_selfcheck(model, depth, max_alt=1):
+    """Validate a model's canonicalisation (thorough tier): whenever a canonical state is reached by a
+    second, different history, every op is applied from BOTH representatives and the observations
+    (violation keys, model.observe, canonical successor) must agree — the one-step bisimulation
+    condition that makes dedup sound. Returns (states, pairs_compared, mismatches)."""
+    from mc import common, explore
+
+    roots = list(model.roots())
+    reps = {}
+    frontier = []
+    for ri, root in enumerate(roots):
+        dg = (ri, repr(model.canon(model.build(root))))
+        if dg not in reps:
+            reps[dg] = [()]
+            frontier.append((ri, ()))
+
+    def expand(chunk):
+        out = []
+        for ri, hist in chunk:
+            res = []
+            for op in model.ops(explore.rebuild(model, roots[ri], hist)):
+                st = explore.rebuild(model, roots[ri], hist)
+                bad = bool(model.step(st, op))
+                res.append((repr(model.canon(st)), op, bad))
+            out.append(res)
+        return out
+
+    for _ in range(depth):
+        if not frontier:
+            break
+        chunks = common.chunked(frontier, common.NPROC * 4)
+        nxt = []
+        for chunk, cres in zip(chunks, common.pmap(expand, chunks)):
+            for (ri, hist), res in zip(chunk, cres):
+                for c, op, bad in res:
+                    if bad:
+                        continue
+                    dg, h = (ri, c), hist + (op,)
+                    if dg not in reps:
+                        reps[dg] = [h]
+                        nxt.append((ri, h))
+                    elif len(reps[dg]) <= max_alt and h not in reps[dg]:
+                        reps[dg].append(h)
+        nxt.sort(key=lambda x: (x[0], repr(x[1])))
+        frontier = nxt
+
+    pairs = [(dg[0], hs[0], alt) for dg, hs in sorted(reps.items(), key=repr) for alt in hs[1:]]
+
+    def vec(ri, hist):
+        out = []
+        for op in model.ops(explore.rebuild(model, roots[ri], hist)):
+            st = explore.rebuild(model, roots[ri], hist)
+            v = model.step(st, op)
+            out.append((repr(op), sorted(k for k, _ in v), model.observe(st), repr(model.canon(st))))
+        return out
+
+    def compare(chunk):
+        bad = []
+        for ri, a, b in chunk:
+            va, vb = vec(ri, a), vec(ri, b)
+            if va != vb:
+                diff = [(x, y) for x, y in zip(va, vb) if x != y][:2]
+                bad.append({"root": roots[ri], "hist_a": list(a), "hist_b": list(b), "diff": diff})
+        return bad
+
+    mism = []
+    for r in common.pmap(compare, common.chunked(pairs, common.NPROC * 4)):
+        mism += r
+    return len(reps), len(pairs), mism
